@@ -2,7 +2,8 @@
 constructs optionally embedded at a random position."""
 
 LITS = list("abcxyz019_ -") + [r"\.", r"\*", r"\\", r"\(", r"\]", "é"]
-CLASS_ITEMS = ["a", "b", "z", "0-9", "a-f", "A-Z", r"\d", r"\w", "_", "-", r"\]", "é", " "]
+CLASS_ITEMS = ["a", "b", "z", "0-9", "a-f", "A-Z", r"\d", r"\w", "_", "-", r"\]", "é", " ", "~", "a-~", "!-~", " -}", " -/",
+               r"0-\x7f", r"\x00-\uffff", " -~", "}-~", " "]
 UNSUPPORTED = [r"(?=a)", r"(?!a)", r"(?<=a)", r"(?<!a)", r"\1", r"\s", r"\S", r"\D", r"\W", r"(?>a)", r"a*+", r"a++",
                r"[\s]", r"[\D]", r"[^\W]"]
 
